@@ -113,7 +113,7 @@ def load_known():
         return json.load(f)["findings"]
 
 
-def finish(ctx, level_note, assumptions, t0, explanation, exhaustive=False):
+def finish(ctx, level_note, assumptions, t0, explanation, exhaustive=False, extra=None):
     """Triage findings against known_findings.json, write evidence + replays, print lines, return exit code."""
     known = {}
     for e in load_known():
@@ -175,6 +175,12 @@ def finish(ctx, level_note, assumptions, t0, explanation, exhaustive=False):
         "wall_s": round(time.time() - t0, 3),
         "violations": len(violations),
     }
+    if extra:
+        ev["coverage"].update(extra)
+        a = extra.get("arming")
+        if a:
+            print("arming: corpus %d/%d as expected; auto mutants %d generated, %d killed, %d undecided, %d survived"
+                  % (a["corpus"]["as_expected"], a["corpus"]["variants"] - a["corpus"]["stale"], a["auto"]["generated"], a["auto"]["killed"], a["auto"]["undecided"], a["auto"]["survived"]))
     os.makedirs(os.path.join(OUT, "evidence"), exist_ok=True)
     with open(os.path.join(OUT, "evidence", "%s.json" % ctx.prop), "w") as fh:
         json.dump(ev, fh, indent=1, default=str)
